@@ -288,13 +288,13 @@ func init() {
 		},
 		Teardown: closeEngine,
 		Strata: []*fw.Stratum{
-			{Name: "modes-agree/valid", Quick: 3000, Thorough: 40000, Run: func(t *fw.T) {
+			{Name: "modes-agree/valid", Quick: 12000, Thorough: 100000, Run: func(t *fw.T) {
 				r := t.Rand()
 				_, rd := randProgram(r)
 				checkModesAgree(t, rd.Src, "valid")
 				t.Distinct(rd.Src)
 			}},
-			{Name: "modes-agree/malformed", Quick: 20000, Thorough: 300000, PanicInconclusive: true, Run: func(t *fw.T) {
+			{Name: "modes-agree/malformed", Quick: 100000, Thorough: 800000, PanicInconclusive: true, Run: func(t *fw.T) {
 				r := t.Rand()
 				var src string
 				if r.IntN(2) == 0 {
@@ -306,9 +306,9 @@ func init() {
 				checkModesAgree(t, src, "malformed")
 				t.Distinct(src)
 			}},
-			{Name: "tolerant", Quick: 3000, Thorough: 40000, Run: runC13Tolerant},
-			{Name: "smart", Quick: 3000, Thorough: 40000, Run: runC13Smart},
-			{Name: "builder-reconfigured-after-build", Quick: 3000, Thorough: 30000, PanicInconclusive: true, Run: runC13Reconfigure},
+			{Name: "tolerant", Quick: 12000, Thorough: 100000, Run: runC13Tolerant},
+			{Name: "smart", Quick: 12000, Thorough: 100000, Run: runC13Smart},
+			{Name: "builder-reconfigured-after-build", Quick: 12000, Thorough: 100000, PanicInconclusive: true, Run: runC13Reconfigure},
 			{Name: "smart-inside-expression-observed", Quick: 300, Thorough: 3000, PanicInconclusive: true, Run: func(t *fw.T) {
 				r := t.Rand()
 				g := gen.NewSyn(r, gen.SynOpts{ExprDepth: 3, StmtDepth: 1, MaxStmts: 3})
